@@ -695,6 +695,10 @@ func (r *rewriter) rewriteSelect(n *ast.SelectStmt) ast.Stmt {
 	hd := ast.NewIdent("false")
 	if hasDefault {
 		hd = ast.NewIdent("true")
+	} else {
+		// keeps the statement "terminating" when every clause of the original select returns
+		clauses = append(clauses, &ast.CaseClause{List: nil, Body: []ast.Stmt{&ast.ExprStmt{X: &ast.CallExpr{
+			Fun: ast.NewIdent("panic"), Args: []ast.Expr{&ast.BasicLit{Kind: token.STRING, Value: `"simrt.Select: unreachable"`}}}}}})
 	}
 	sw := &ast.SwitchStmt{Tag: r.call("Select", append([]ast.Expr{hd}, caseArgs...)...),
 		Body: &ast.BlockStmt{List: clauses}}
